@@ -60,3 +60,19 @@ func (k *Known) Explain(p string, fired []string) string {
 	}
 	return ""
 }
+
+// ExplainCrash: a crash the model predicted is explained by any listed finding whose trigger
+// fired, whatever property's oracle happened to be running.
+func (k *Known) ExplainCrash(fired []string) string {
+	if k == nil {
+		return ""
+	}
+	for _, f := range k.Findings {
+		for _, t := range f.Triggers {
+			if has(fired, t) && strings.Contains(f.What, "kills the process") {
+				return f.ID
+			}
+		}
+	}
+	return ""
+}
